@@ -28,6 +28,10 @@ CHECKS = [
        "Generated-input search over trees with forced corner shapes (single node, unbranched chain, root degree 1/2/3+) and permuted numbering; oracle = reference decomposition from parent pointers for tips, furcations, branches (as id-tuple sets), paths, Node.branch, BranchTree nodes/edges/remembered points, ToLongestPath. Exploration, not proof.",
        "Trusted: reference decomposition in vlib/models.py; list order unspecified.",
        "property-based testing (Hypothesis): reference-model oracle for the branch decomposition"),
+    _c("C18",
+       "Stateful model check of DisjointSetUnion against a naive partition (all pairs after every step); every parent table on <= 5 (quick) / <= 6 (thorough) nodes exhaustively plus generated tables up to 40 nodes incl. self loops, cycles, forests and shuffled rows, each checker call under a watchdog, against parent-pointer definitions; generated multi-root forest files (id base 0/1/k, roots in any rows) through read_swc(fix_roots=off|somas|nearest) and the DataFrame repair functions. Exhaustive on the small tables, exploration beyond.",
+       "Trusted: the naive partition / parent-pointer reference in props/c18.py; ids 0..n-1 for has_cyclic (DSU addresses elements by id); re-basing only when the first row is a root.",
+       "property-based testing (Hypothesis stateful + exhaustive small-domain enumeration): reference-model oracle"),
     {"id": "C02",
      "text": "Generated-input search: SWC texts assembled from the line grammar with exactly known rational values, read through every source kind/encoding/option; oracle = the generator's own table (exact equality) for valid texts, 'must raise' for texts with injected malformed lines or an undecodable byte, tag-based isomorphism for sort_nodes. No counterexample among the generated cases; this is exploration, not proof.",
      "ref": "DESIGN.md section 3 C02",
